@@ -177,6 +177,68 @@ def transpile_in_place(ctx, binary):
     return n
 
 
+# ---- the pipeline in a directory with a HISTORY: source names with further dots in them, outputs of an earlier version of
+# the same module already in place (longer, shorter), a stale file under a neighbouring name.  Fixed cases.
+HIST_LONG = ("greet = fn(who: str) -> str {\n  return \"hi \" + who\n}\nscale = fn(n: int) -> int {\n  return n * 3\n}\nfinish = fn() {\n  print \"end of the first version\"\n}\n"
+             "print greet(\"first version\")\nprint scale(14)\nl: [int...] = [1, 2, 3]\nprint l\nfinish()\n")
+HIST_SHORT = "say = fn() {\n  print \"v2\"\n}\nsay()\n"
+HIST_MID = "twice = fn(n: int) -> int {\n  return n * 2\n}\nprint twice(21)\nprint \"second version\"\n"
+HIST_STEMS = ["job", "report.v2", "a.b.c", "x.y", "data.transpiled", "v1.0.3"]
+
+
+def pipeline_histories(ctx, binary):
+    base = ctx.mktemp()
+    seqs = [("long-then-short", [HIST_LONG, HIST_SHORT]), ("short-then-long", [HIST_SHORT, HIST_LONG]), ("long-mid-short", [HIST_LONG, HIST_MID, HIST_SHORT]),
+            ("single", [HIST_MID]), ("same-twice", [HIST_MID, HIST_MID])]
+    cases = [(stem, name, seq) for stem in HIST_STEMS for name, seq in seqs]
+
+    def one(case):
+        stem, name, seq = case
+        d = programs.materialize({"files": {}}, base)
+        # a stale neighbour: the name a derivation that drops one dotted component too many would pick
+        if "." in stem:
+            with open(os.path.join(d, stem.split(".")[0] + ".mmm"), "w") as f:
+                f.write("stale\n")
+        steps = []
+        for v, src in enumerate(seq):
+            with open(os.path.join(d, stem + ".ms"), "w") as f:
+                f.write(src)
+            r = programs.run_bin(binary, ["run", stem + ".ms", "-q"], d)
+            # `run` leaves no bytecode behind that matters here; the pipeline writes <stem>.transpiled.mmm then <stem>.mmm
+            c = programs.run_bin(binary, ["compile", stem + ".ms", "--quick", "--output-format", "raw-text"], d)
+            t = x = None
+            if c[0] == 0 and os.path.exists(os.path.join(d, stem + ".transpiled.mmm")):
+                t = programs.run_bin(binary, ["transpile", stem + ".transpiled.mmm"], d)
+                if t[0] == 0:
+                    x = programs.run_bin(binary, ["execute", stem + ".mmm"], d)
+            steps.append((v, src, r, c, t, x, sorted(os.listdir(d))))
+        shutil.rmtree(d, ignore_errors=True)
+        return case, steps
+    n = 0
+    for (stem, name, seq), steps in programs.pmap(one, cases):
+        for v, src, r, c, t, x, ls in steps:
+            n += 1
+            how = "in one directory, for each version in turn: write %s.ms; mscript compile %s.ms --quick --output-format raw-text; mscript transpile %s.transpiled.mmm; mscript execute %s.mmm" % (stem, stem, stem, stem)
+            rep = {"stem": stem, "history": name, "versions": seq, "failing_version": v, "how": how, "directory_after": ls, "run": {"rc": r[0], "stdout": r[1][-600:]}}
+            if r[0] != 0 or c[0] != 0:
+                ctx.report("generator:rejected", "pipeline-history program does not run/compile: %s" % (r[2] + c[1] + c[2])[-300:], rep, found_input=False)
+                break
+            if t is None:
+                continue                      # the text form is not where transpile takes it from: system_level reports that once
+            if t[0] != 0:
+                rep["transpile"] = {"rc": t[0], "stderr": t[2][-600:]}
+                ctx.report("pipeline-history:transpile-fails", "version %d of `%s.ms` (%s): transpile rejects the compiler's raw-text output: %s" % (v + 1, stem, name, t[2][-200:]), rep)
+                break
+            rep["transpile"] = {"rc": t[0], "stdout": t[1][-300:]}
+            rep["execute"] = {"rc": x[0], "stdout": x[1][-600:], "stderr": x[2][-600:]}
+            if programs.exit_class(x[0]) != programs.exit_class(r[0]) or x[1] != r[1]:
+                ctx.report("pipeline-history:" + ("dotted-name" if v == 0 and "." in stem else "rewritten-output" if v > 0 else "first-version"),
+                           "version %d of `%s.ms` (%s): compile raw-text -> transpile -> execute gives exit %s %r, run gives exit %s %r" % (
+                               v + 1, stem, name, x[0], x[1][-120:], r[0], r[1][-120:]), rep)
+                break
+    return n
+
+
 def run(ctx):
     ok = core.coq_props(ctx, "Props/C18.v")
     binary = core.build_repo()
@@ -225,6 +287,7 @@ def run(ctx):
     n = system_level(ctx, binary, projects, 100 if ctx.quick() else len(projects))
     ctx.cov["programs_through_pipeline"] = n
     ctx.cov["transpile_in_place_probes"] = transpile_in_place(ctx, binary)
+    ctx.cov["pipeline_history_steps"] = pipeline_histories(ctx, binary)
     ctx.cov["traces_validated_against_impl"] = n
     ctx.cov["trusted_base"] = ["Coq 8.16.1 kernel (coqc; vm_compute for the finite opcode-table facts)", "no axioms (closed under the global context)",
                                "translator gen/opcodes.py (instruction_constants.rs -> Gen/OpcodeTable.v)",
